@@ -71,6 +71,18 @@ func (r *recorder) stub(mt string) minify.MinifierFunc {
 		case r.mode == "fail":
 			r.calls = append(r.calls, c)
 			return errStub
+		case r.mode == "fail-scribble":
+			// a minifier that works in place (as the bundled ones do: they rewrite the buffer behind their reader),
+			// has written part of its output and then fails
+			r.calls = append(r.calls, c)
+			w.Write([]byte("Zpartial"))
+			if bb, ok := rd.(interface{ Bytes() []byte }); ok {
+				under := bb.Bytes()
+				for i := range under {
+					under[i] = 'X'
+				}
+			}
+			return errStub
 		case r.mode == "fail-pos":
 			r.calls = append(r.calls, c)
 			return parse.NewError(bytes.NewReader(b), 0, "stub parse error")
@@ -474,9 +486,16 @@ func CheckOne(h host, payload, mode string) (kind, what, out string) {
 	out = string(res)
 	pre := h.pre(payload)
 	switch {
-	case mode == "fail" || mode == "fail-pos":
+	case mode == "fail" || mode == "fail-pos" || mode == "fail-scribble":
 		if len(rec.calls) == 0 {
 			return "", "", out // resource empty after pre-processing: nothing to minify
+		}
+		if err == nil && mode == "fail-scribble" {
+			// where the error is not reported (data: URIs, a recorded finding) the resource is at least handed on
+			// as it was: neither the partial output nor the buffer the failing minifier worked in may show
+			if got, ok := h.extract(out); !ok || norm(got, h) != norm(pre, h) {
+				return "corrupted-on-error", fmt.Sprintf("the embedded minifier failed after writing part of its output and rewriting its input buffer; the outer call returned nil and the resource %q became %q (host output %q)", pre, got, out), out
+			}
 		}
 		if err == nil {
 			return "error-swallowed", fmt.Sprintf("the embedded minifier failed but the outer call returned nil and %q", out), out
@@ -592,9 +611,9 @@ func norm(s string, h host) string {
 
 // Run executes C11.
 func Run(c *core.Check) {
-	c.Rule = fmt.Sprintf("%d hosts (HTML script with 5 type attributes, style, style=, on*= with and without javascript:, data: URIs percent- and base64-encoded; SVG style element text/CDATA and style=; CSS url(data:…)) x %d payloads (incl. ones that need re-escaping: quotes of both kinds, <, >, &, ]]>, white space, newlines) x registry modes: recording stub (marker output), %d nasty stub outputs, failing stub, failing stub with parse position, nothing registered, the real minifiers; non-trivial = the host output differs from the host input", len(hosts), len(payloads), len(nasties))
+	c.Rule = fmt.Sprintf("%d hosts (HTML script with 5 type attributes, style, style=, on*= with and without javascript:, data: URIs percent- and base64-encoded; SVG style element text/CDATA and style=; CSS url(data:…)) x %d payloads (incl. ones that need re-escaping: quotes of both kinds, <, >, &, ]]>, white space, newlines) x registry modes: recording stub (marker output), %d nasty stub outputs, failing stub, failing stub with parse position, failing stub that has written partial output and overwritten the buffer behind its reader, nothing registered, the real minifiers; non-trivial = the host output differs from the host input", len(hosts), len(payloads), len(nasties))
 	c.Assumptions = []string{"x/net/html, the own XML reader and the own RFC 2397 decoder extract the embedded value from the host output", "documented pre-processing: trimming of attribute values, removal of a javascript: prefix, entity decoding"}
-	modes := []string{"marker", "fail", "fail-pos", "unregistered", "real"}
+	modes := []string{"marker", "fail", "fail-pos", "fail-scribble", "unregistered", "real"}
 	for _, n := range nasties {
 		modes = append(modes, "nasty:"+n)
 	}
